@@ -209,9 +209,10 @@ def break_frame(rng, spec):
             ft['names'] = ft['names'][:1]
             return b, kind
         if kind == 'num-rows' and (b['feats'] or b['y'] is not None):
-            b['num_rows'] = b['R'] + rng.choice([1, -1, 2])
-            if b['num_rows'] < 0:
+            nr = b['R'] + rng.choice([1, -1, 2])
+            if nr < 0:
                 continue
+            b['num_rows'] = nr
             return b, kind
     return None, None
 
@@ -399,6 +400,7 @@ class C08(core.Check):
                     p['y']['vals'].pop()
                 if p['num_rows'] is not None:
                     p['num_rows'] -= 1
+                pre.clear()          # a common row selection could hide the disagreement
                 ok = True
             elif mut == 'dict-keys' and k >= 2:
                 c = [(p, ft) for p in parts for ft in p['feats'] if ft['kind'] == 'dict']
